@@ -8,6 +8,8 @@ characters. The two checks of `urlsplit` that live in other libraries (`ipaddres
 normalisation of a non-ASCII netloc) are a parameter `chk : Bytes → Bool` ("the library accepts this netloc");
 theorems quantify over every `chk`, the harness passes what the real `urlsplit` did.
 -/
+deriving instance DecidableEq for Except
+
 namespace Sdc.Url
 open Sdc.Percent
 
